@@ -112,7 +112,7 @@ def worker_main(pid, tier, seed, shard, nshards, outfile, indices=None):
         reach.start(anchors)
     ncases = ncases_of(mod, tier)
     budget = getattr(mod, 'BUDGET_S', {}).get(tier, 3600 if tier == 'thorough' else 600)
-    case_timeout = getattr(mod, 'CASE_TIMEOUT_S', 120)
+    case_timeout = getattr(mod, 'CASE_TIMEOUT_S', 300)
     t0 = time.time()
     try:
         with open(outfile, 'w') as out:
